@@ -15,9 +15,9 @@ PROPERTY = "C01"
 LEVEL = "exploration"
 RULE = ("cases = every ordered sequence of 1..K distinct blocks (K=3 quick, 4 thorough) over 17 .rules blocks "
         "(10 categorising: contains/regex/and-not/amount/top-level variable/let/field/source/date; 2 tag-only; 1 unevaluable; 1 never-matching rule whose let: shadows a global; 1 rule reading a name only other rules bind) "
-        "x 4 preambles (none, variable, description transform), plus every ordered sequence of 1..K rows over 12 legacy CSV rows "
-        "(regex, lookahead, alternation, leading parenthesis, char class, amount/date/month modifiers, tag-only row, invalid regex); each file is run on 72 "
-        "transactions (8 descriptions x 3 amounts x 3 date/field/source contexts) through 2-3 public entry points. "
+        "x 4 preambles (none, variable, description transform), plus every ordered sequence of 1..K rows over 13 legacy CSV rows "
+        "(regex, lookahead, alternation, leading parenthesis, char class, amount/date/month modifiers, tag-only row, invalid regex); each file is run on 108 "
+        "transactions (9 descriptions x 3 amounts x 4 date/field/source contexts) through 2-3 public entry points, small files also as one statement (memo / type / location columns) through parse_generic_csv. "
         "non-trivial = file in which, for some transaction, >=2 rules are true or a true tag-only rule precedes the winner; files are distinct by construction")
 ASSUMPTIONS = ["truth of one .rules condition is taken from the real evaluator on the one-rule file with the same preamble; for variable-free conditions it must also equal the reference interpreter's value where that is defined (C04 judges meaning in depth)",
                "truth of a legacy CSV row is computed independently: re.search(regex, description, re.I) and documented modifier meaning",
